@@ -504,6 +504,8 @@ def min_with(cls, c, value=None):
             kw2.pop("userpass", None)
         if n == "TAX1099R_V100" and c.name in ("grossdist", "taxamt", "fedtaxwh"):
             kw2["irasepsimp"] = True
+        if n == "TAX1099MISC_V100" and c.name == "sttaxwh":
+            kw2["payerstate"] = "a"
         if n == "EXTDPAYEE" and c.name == "payeeid":
             kw2["idscope"] = "GLOBAL"
             kw2["name"] = "a"
